@@ -36,6 +36,7 @@ type c20In struct {
 	Steps  [][][3]int `json:"steps"`  // per snapshot: (name, kind id, content id)
 	Panics [][3]int   `json:"panics"` // (step, op, name); op 0 Init 1 Inherit 2 Close
 	Mode   int        `json:"mode"`
+	NameStr []string  `json:"namestr,omitempty"` // object names (default n0, n1, ...)
 }
 
 type c20StepObs struct {
@@ -99,12 +100,60 @@ func (o *c20Obj) c20Ident() (int, int, int) {
 	return o.kind, o.v, o.born
 }
 
-func c20NameIdx(s string) int {
-	var i int
-	if _, err := fmt.Sscanf(s, "n%d", &i); err != nil {
-		return -1
+// object names of the running case: index -> name. Default "n<i>"; a case may bring its own
+// table (one-character names, every allowed punctuation, 253 characters, 254 = invalid, ...).
+var c20Names []string
+
+func c20UseNames(n int, table []string) {
+	c20.mu.Lock()
+	defer c20.mu.Unlock()
+	c20Names = make([]string, n)
+	for i := 0; i < n; i++ {
+		if i < len(table) && table[i] != "" {
+			c20Names[i] = table[i]
+		} else {
+			c20Names[i] = fmt.Sprintf("n%d", i)
+		}
 	}
-	return i
+}
+
+func c20Name(i int) string {
+	if i >= 0 && i < len(c20Names) {
+		return c20Names[i]
+	}
+	return fmt.Sprintf("n%d", i)
+}
+
+func c20NameIdx(s string) int {
+	for i, n := range c20Names {
+		if n == s {
+			return i
+		}
+	}
+	return -1
+}
+
+// name pool for the exotic-name stream
+func c20ExoticNames(r *vfRand, n int) []string {
+	long := func(k int, fill string) string {
+		b := make([]byte, k)
+		for i := range b {
+			b[i] = fill[i%len(fill)]
+		}
+		return string(b)
+	}
+	pool := []string{"a", "7", "Z", "-", "~", "_", ".", "a-b_c.d~e", "-lead", "~x", ".hidden", "_u", "0", "x-",
+		long(253, "a"), long(253, "k-_.~9"), long(252, "b"), long(254, "c"), long(300, "d-"), "ab", "A.b"}
+	out := []string{}
+	used := map[string]bool{}
+	for len(out) < n {
+		s := pool[r.Intn(len(pool))]
+		if !used[s] {
+			used[s] = true
+			out = append(out, s)
+		}
+	}
+	return out
 }
 
 func (o *c20Obj) enter(op int, kind int, spec *supervisor.Spec, prev supervisor.Object, foreign bool) bool {
@@ -333,13 +382,13 @@ func c20Setup() {
 
 func c20Yaml(name string, kind int, v int) string {
 	if kind == 9 { // a real pipeline with v Mock filters
-		s := fmt.Sprintf("name: %s\nkind: %s\nflow: []\nfilters:\n", name, pipeline.Kind)
+		s := fmt.Sprintf("name: \"%s\"\nkind: %s\nflow: []\nfilters:\n", name, pipeline.Kind)
 		for i := 0; i < v; i++ {
 			s += fmt.Sprintf("- name: f%d\n  kind: Mock\n  rules: []\n", i)
 		}
 		return s
 	}
-	return fmt.Sprintf("name: %s\nkind: %s\nv: %d\n", name, c20KindName[kind], v)
+	return fmt.Sprintf("name: \"%s\"\nkind: %s\nv: %d\n", name, c20KindName[kind], v)
 }
 
 func c20SortRows(rows [][]int) [][]int {
@@ -413,6 +462,7 @@ func c20Observe(step int, super *supervisor.Supervisor, tc *trafficcontroller.Tr
 
 func c20Run(t *testing.T, in c20In) (obs c20Obs) {
 	obs.Crash = -1
+	c20UseNames(in.Names, in.NameStr)
 	ch := make(chan map[string]string)
 	cls := clustertest.NewMockedCluster()
 	cls.MockedSyncer = func(time.Duration) (cluster.Syncer, error) {
@@ -426,7 +476,7 @@ func c20Run(t *testing.T, in c20In) (obs c20Obs) {
 	push := func(step [][3]int, gateBar bool) {
 		kv := map[string]string{}
 		for _, e := range step {
-			n := fmt.Sprintf("n%d", e[0])
+			n := c20Name(e[0])
 			kv[prefix+n] = c20Yaml(n, e[1], e[2])
 		}
 		kv[prefix+"zzbar"] = fmt.Sprintf("name: zzbar\nkind: C20Bar\nv: %d\n", barV)
@@ -505,6 +555,7 @@ var c20ApplySeq int
 
 func c20RunApply(t *testing.T, in c20In) (obs c20Obs) {
 	obs.Crash = -1
+	c20UseNames(in.Names, in.NameStr)
 	c20ApplyOnce.Do(func() {
 		cls := clustertest.NewMockedCluster()
 		cls.MockedSyncer = func(time.Duration) (cluster.Syncer, error) {
@@ -545,7 +596,7 @@ func c20RunApply(t *testing.T, in c20In) (obs c20Obs) {
 				}
 			}()
 			for n := 0; n < in.Names; n++ {
-				name := fmt.Sprintf("n%d", n)
+				name := c20Name(n)
 				k, isLive := live[n]
 				w, wanted := want[n]
 				if isLive && (!wanted || w[1] != k) {
@@ -559,7 +610,7 @@ func c20RunApply(t *testing.T, in c20In) (obs c20Obs) {
 				if wanted {
 					spec, err := super.NewSpec(c20Yaml(name, w[1], w[2]))
 					if err != nil {
-						panic(err)
+						continue // not a valid spec (name): the caller has nothing to apply
 					}
 					if w[1] == 9 {
 						_, err = tc.ApplyPipelineForSpec(ns, spec)
@@ -692,6 +743,9 @@ func c20GenK(r *vfRand, adv bool, tier string, trafficOnly bool) c20In {
 		}
 		hist = append(hist, kinds)
 		in.Steps = append(in.Steps, step)
+	}
+	if r.Chance(1, 3) {
+		in.NameStr = c20ExoticNames(r, in.Names)
 	}
 	// panic oracle; the real Pipeline kind cannot be told to panic, so the oracle stays
 	// silent for a name while it is (or just was) a real pipeline
